@@ -49,7 +49,7 @@ def run_case(rng, idx, tier, lane, ctx):
     spec = GE.gen_events(rng, limits="mixed", max_mag=3, drift=drift)
     grow_k = S.maybe_grown(rng, spec, 0.15)     # built for the first k states, evaluated, then extended (states via state_list, processes via add_*)
     theta = GE.param_values(rng, spec)
-    x0 = GE.initial_state(rng, spec, hi=15, boundary_prob=0.25)
+    x0 = GE.initial_state(rng, spec, hi=15, boundary_prob=0.25, huge_prob=0.15)
     ref, V = S.numeric_V(spec, theta)
     horizon = S.choose_horizon(rng, ref, x0, theta, targets=(10, 40, 120))
     cls = G.classes(spec)
